@@ -983,3 +983,8 @@ func Descs(cs []FieldCase) []string {
 }
 
 var _ = rng.Pick[int]
+
+// NewFieldCase builds a field case from an explicit expectation.
+func NewFieldCase(f zapcore.Field, desc string, exp func(b *ref.Builder)) FieldCase {
+	return FieldCase{F: f, Desc: desc, exp: func(b *ref.Builder) (string, bool) { exp(b); return "", false }}
+}
